@@ -528,6 +528,9 @@ def gen_history(rng, nticks, cov, malformed=False):
                     cov.hit("collect_with_returned_event")
                     if stale:
                         cov.hit("stale_collect_with_returned_event")
+                elif stale and rng.random() < 0.45:
+                    res = [res[0], failed()]
+                    cov.hit("stale_collect_then_failure")
             elif k < 0.62:
                 res = [DeleteCollectedEvent(event_id=rng.choice(["default", "x"])), out()]
             elif k < 0.74:
@@ -551,6 +554,13 @@ def gen_history(rng, nticks, cov, malformed=False):
                         prefix.append(AddCollectedEvent(event_id=rng.choice(["default", "x"]), event=ip.event))
                 term = rng.choice([add_waiter, add_waiter, failed, out])()
                 res = prefix + [term]
+                # (a collecting invocation with a STALE snapshot that fails: its re-run and its retry meet in one tick)
+                cands2 = [(n2, ip2, b2) for (n2, ip2) in ips for b2 in ("default", "x")
+                          if len(s.workers[n2].collected_events.get(b2, [])) > len(ip2.shared_state.collected_events.get(b2, []))]
+                if cands2 and rng.random() < 0.5:
+                    nm, ip, b2 = rng.choice(cands2)
+                    res = [AddCollectedEvent(event_id=b2, event=ip.event), failed()]
+                    cov.hit("stale_collect_then_failure")
                 cov.hit("mixed_result_list")
                 if any(isinstance(x, DeleteWaiter) for x in prefix) and isinstance(term, AddWaiter):
                     cov.hit("delete_waiter_then_new_waiter")
